@@ -92,7 +92,12 @@ def parse_iso8601(
 
     :rtype: datetime.datetime or datetime.time or datetime.date
     """
-    parsed = _parse_iso8601_duration(text)
+    try:
+        parsed = _parse_iso8601_duration(text)
+    except OverflowError:
+        # A number too large for a float, a total beyond the range of timedelta
+        raise ParserError("Duration is out of range")
+
     if parsed is not None:
         return parsed
 
